@@ -267,7 +267,13 @@ class Bounder:
     def _same_mem(self, x, v):
         x, v = _uncast(x), _uncast(v)
         if x.is_inst and v.is_inst and x.op == "load" and v.op == "load":
-            return _same_loc(self.prog, self.f, x.ops[0], v.ops[0]) and not self._store_between(x, v)
+            if not _same_loc(self.prog, self.f, x.ops[0], v.ops[0]) or self._store_between(x, v):
+                return False
+            import os
+            from .memver import written_between
+            if not os.environ.get("VERIF_MEMVER_OFF") and written_between(self.prog, self.f, x, v):
+                return False
+            return True
         return False
 
     def _store_between(self, a, b):
@@ -306,6 +312,18 @@ class Bounder:
     # ---- the judgement
     def bounded(self, v, at, Q, depth=0, seen=None):
         """v <= capacity Q at instruction `at`"""
+        if seen is None and getattr(at, "fn", None) is self.f:
+            # a fresh question in this function: the values meet at `at` (memory versions, memver.py)
+            from . import memver
+            old = memver.USE_POINT[0]
+            memver.USE_POINT[0] = at
+            try:
+                return self._bounded(v, at, Q, depth, seen)
+            finally:
+                memver.USE_POINT[0] = old
+        return self._bounded(v, at, Q, depth, seen)
+
+    def _bounded(self, v, at, Q, depth=0, seen=None):
         if seen is None:
             seen = set()
         key = (id(v), id(at.bb))
